@@ -161,6 +161,8 @@ def r5_request_path_never_closes(ctx):
 
 
 def run(ctx):
+    from . import C20 as _C20t
+    _C20t.r12_subtractions(ctx, _C20t.input_reachable(ctx))   # no subtraction (sizes, Durations) that can underflow and kill the task that computes it
     from . import effects
     effects.check_property(ctx, "C13")    # R13.E: no operation on shared protocol state outside the reviewed table
     body = co(ctx, "R13.1", CL + "create_stream")
